@@ -33,10 +33,10 @@ type Block struct {
 	Deposits          phase0.Deposits
 	VoluntaryExits    phase0.VoluntaryExits
 
-	Sync       altair.SyncAggregate            // altair+
-	Payload    deneb.ExecutionPayload          // bellatrix+ (superset form)
+	Sync       altair.SyncAggregate               // altair+
+	Payload    deneb.ExecutionPayload             // bellatrix+ (superset form)
 	BLSChanges common.SignedBLSToExecutionChanges // capella+
-	Blobs      deneb.KZGCommitments            // deneb
+	Blobs      deneb.KZGCommitments               // deneb
 
 	Signature common.BLSSignature
 }
